@@ -1,10 +1,160 @@
 import Driver.Util
+import Hv.Conc.Lock
 
-/-! Placeholder: the line-protocol driver of domain C14 is not written yet. -/
+/-! Line-protocol driver for the business-lock model (domain C14). Same ops and reply format as
+    `/verif/harness/c14.go`.  `go S <obs>` carries the branch the real select took; the driver
+    checks that the model enables it.  A reply is followed by `\t#F:<finding>` when the model
+    state violates the Spec (granted ≠ {head}, or a channel closed twice). -/
 namespace Driver.C14
+open Hv.Lock
 
-def run (_args : List String) : IO UInt32 := do
-  IO.eprintln "drv: domain C14 has no driver yet"
-  return 2
+structure Sess where
+  key : String
+  short : Bool
+  held : Bool := false
+  cancelled : Bool := false
+  acquired : Bool := false
+  gone : Bool := false
+  expired : Bool := false
+
+structure DSt where
+  cfg : Cfg
+  gw : GwCfg
+  withoutCancel : Bool
+  keys : List (String × St) := []
+  sess : List Sess := []
+
+def getKey (d : DSt) (k : String) : St := (d.keys.lookup k).getD init
+
+def setKey (d : DSt) (k : String) (s : St) : DSt :=
+  { d with keys := (k, s) :: d.keys.filter (·.1 != k) }
+
+def getSess (d : DSt) (n : Nat) : Option Sess := if n = 0 then none else d.sess[n - 1]?
+
+def setSess (d : DSt) (n : Nat) (x : Sess) : DSt := { d with sess := d.sess.set (n - 1) x }
+
+def render (s : St) : String :=
+  let g := s.q.callers.filter (· ∈ s.q.ready)
+  let h := s.q.callers.filter (· ∈ s.acquired)
+  s!"q={showNatList s.q.callers} g={showNatList g} h={showNatList h}"
+
+def flag (cfg : Cfg) (s : St) : String :=
+  if s.q.panics > 0 then "\t#F:C14-ready-closed-twice"
+  else if s.q.ready != s.q.callers.head?.toList then
+    (match cfg.wake with
+     | .last => "\t#F:C14-wakes-last-waiter"
+     | .none => "\t#F:C14-no-wake"
+     | .next => "\t#F:C14-ready-closed-twice")
+  else ""
+
+def applyAct (d : DSt) (k : String) (a : Act) : DSt :=
+  match step d.cfg (getKey d k) a with
+  | some s' => setKey d k s'
+  | none => d
+
+/-- a granted caller that is parked in its select takes the `ready` branch -/
+def settle (d : DSt) (k : String) : DSt :=
+  (getKey d k).q.callers.foldl (fun d id =>
+    let s := getKey d k
+    match getSess d id with
+    | some x =>
+      if id ∈ s.q.ready && !x.acquired && !x.held && !x.gone then
+        setSess (applyAct d k (.acquire id)) id { x with acquired := true }
+      else d
+    | none => d) d
+
+def out (d : DSt) (k : String) (msg : String) : DSt × String :=
+  let s := getKey d k
+  (d, s!"{msg} {render s}{flag d.cfg s}")
+
+def roundEff (t : Int) : Int := (t + 125) / 250 * 250
+
+def stepLine (d : DSt) (line : String) : DSt × String :=
+  match words line with
+  | ["case", _] => ({ d with keys := [], sess := [] }, line)
+  | "lock" :: k :: ttl :: rest =>
+    let hold := rest == ["hold"]
+    let n := d.sess.length + 1
+    let d := { d with sess := d.sess ++ [{ key := k, short := ttl == "short", held := hold }] }
+    let d := applyAct d k (.enqueue n)
+    if hold then out d k s!"enq {n} held"
+    else if n ∈ (getKey d k).q.ready then
+      let d := applyAct d k (.acquire n)
+      let d := setSess d n { key := k, short := ttl == "short", acquired := true }
+      out d k s!"enq {n} acq"
+    else out d k s!"enq {n} wait"
+  | "go" :: ns :: obs =>
+    match ns.toNat?.bind (fun n => (getSess d n).map (fun x => (n, x))) with
+    | none => (d, "skip")
+    | some (n, x) =>
+      if !x.held then (d, "skip") else
+      let k := x.key
+      let s := getKey d k
+      let granted := decide (n ∈ s.q.ready)
+      -- the branch to take: the observed one when the model enables it, else the model's own
+      let want := match obs with
+        | ["acq"] => if granted then "acq" else if x.cancelled then "cancel" else "wait"
+        | ["cancel"] => if x.cancelled then "cancel" else if granted then "acq" else "wait"
+        | _ => if granted then "acq" else if x.cancelled then "cancel" else "wait"
+      if want == "acq" then
+        let d := applyAct d k (.acquire n)
+        out (setSess d n { x with held := false, acquired := true }) k s!"go {n} acq"
+      else if want == "cancel" then
+        let d := applyAct d k (.cancel n)
+        let d := setSess d n { x with held := false, gone := true }
+        out (settle d k) k s!"go {n} cancel"
+      else out (setSess d n { x with held := false }) k s!"go {n} wait"
+  | ["cancel", ns] =>
+    match ns.toNat?.bind (fun n => (getSess d n).map (fun x => (n, x))) with
+    | none => (d, "skip")
+    | some (n, x) =>
+      if x.cancelled then (d, "skip") else
+      let k := x.key
+      let x := { x with cancelled := true }
+      if x.held then out (setSess d n x) k s!"cancel {n} pending"
+      else if x.acquired || x.gone then out (setSess d n x) k s!"cancel {n} noop"
+      else
+        let d := applyAct d k (.cancel n)
+        let d := setSess d n { x with gone := true }
+        out (settle d k) k s!"cancel {n} removed"
+  | ["unlock", ns] =>
+    match ns.toNat?.bind (fun n => (getSess d n).map (fun x => (n, x))) with
+    | none => (d, "skip")
+    | some (n, x) =>
+      if !x.acquired then (d, "skip") else
+      let k := x.key
+      let res := if unlockOk (getKey d k) n then "ok" else "err"
+      let d := applyAct d k (.unlock n)
+      out (settle d k) k s!"unlock {n} {res}"
+  | ["unlockraw", k, _] => out d k "unlockraw err"
+  | ["expire", ns] =>
+    match ns.toNat?.bind (fun n => (getSess d n).map (fun x => (n, x))) with
+    | none => (d, "skip")
+    | some (n, x) =>
+      if !x.acquired || !x.short || x.expired then (d, "skip") else
+      let k := x.key
+      let d := setSess d n { x with expired := true }
+      if n ∈ (getKey d k).q.callers then
+        let d := applyAct d k (.ttl n)
+        out (settle d k) k s!"expire {n} removed"
+      else out d k s!"expire {n} noop"
+  | ["gwttl", t] =>
+    match t.toInt? with
+    | none => (d, "bad-op")
+    | some ttl =>
+      let eff := effTTL d.gw ttl
+      (d, s!"gwttl {t} eff={roundEff eff}" ++ (if eff ≤ 0 then "\t#F:C14-ttl-floor" else ""))
+  | ["gwcancel"] => (d, if d.withoutCancel then "gwcancel kept acq" else "gwcancel removed err")
+  | _ => (d, "bad-op")
+
+def parseWake (s : String) : Wake :=
+  if s == "last" then .last else if s == "none" then .none else .next
+
+def run (args : List String) : IO UInt32 := do
+  let kv := parseArgs args
+  let cfg : Cfg := { wake := parseWake (arg kv "wake"), wakeOnlyIfHead := arg kv "wakeOnlyIfHead" != "no" }
+  let gw : GwCfg := { ttlThresh := ((arg kv "ttlThresh").toInt?).getD 0, ttlFloor := ((arg kv "ttlFloor").toInt?).getD 0 }
+  lineLoop stepLine { cfg := cfg, gw := gw, withoutCancel := arg kv "gwWithoutCancel" != "no" }
+  return 0
 
 end Driver.C14
